@@ -146,7 +146,10 @@ Proof. induction hs as [|h hs IH]; cbn; auto. Qed.
 Lemma count_rejected_repeat n : count_rejected (repeat VRejected n) = n.
 Proof. unfold count_rejected. induction n; cbn; auto. Qed.
 
-Lemma apply_first_force o p f s hs : force o = true -> apply_first o p f s hs = apply_rest o p f 0 s hs.
+Lemma with_patch_ok q m s q' : with_patch q m = Ok (s, q') -> m = Ok s /\ q' = q.
+Proof. unfold with_patch. destruct m as [x|e]; cbn [rbind]; [|discriminate]. intros [= -> ->]. auto. Qed.
+
+Lemma apply_first_force o p f s hs : force o = true -> apply_first o p f s hs = with_patch p (apply_rest o p f 0 s hs).
 Proof.
   intros Hf. destruct hs as [|h r]; [reflexivity|]. cbn [apply_first apply_rest].
   unfold should_check_if_patch_is_reversed. rewrite Hf.
@@ -168,18 +171,18 @@ Proof.
   assert (Hlen : length (hunks p1) = length (hunks p)).
   { unfold p1. destruct (reverse_patch_opt o); [|reflexivity]. cbn. apply map_length. }
   fold init_state.
-  destruct (apply_first o p1 f init_state (hunks p1)) as [s|e] eqn:E; cbn [rbind]; [|discriminate].
-  intros [= <-]. cbn [r_out r_failed r_patch]. unfold set_hunks. cbn [hunks].
+  destruct (apply_first o p1 f init_state (hunks p1)) as [[s q]|e] eqn:E; cbn [rbind]; [|discriminate].
+  intros [= <-]. cbn [r_out r_failed r_patch fst snd]. unfold set_hunks. cbn [hunks].
   revert E. destruct (hunks p1) as [|h hs] eqn:Hh.
-  { cbn. intros [= <-]. exists []. cbn. rewrite <- Hlen. auto. }
+  { cbn. intros [= <- <-]. exists []. cbn. rewrite <- Hlen. auto. }
   cbn [apply_first].
   set (loc := locate_for p1 f h (ignore_whitespace o) (a_offerr init_state) (max_fuzz o) (a_ln init_state)).
-  assert (Gen : forall s0 h0 loc0 hs0 k, a_skip s0 = false -> a_out s0 = [] -> a_ln s0 = 0 -> a_rejected s0 = 0 -> a_hunks s0 = [] ->
+  assert (Gen : forall p1 s0 h0 loc0 hs0 k, a_skip s0 = false -> a_out s0 = [] -> a_ln s0 = 0 -> a_rejected s0 = 0 -> a_hunks s0 = [] ->
      (do s' <- apply_one o p1 f 0 s0 h0 loc0; apply_rest o p1 f k s' hs0) = Ok s ->
      (loc0 = None \/ exists l, loc0 = Some l) ->
      exists vs, replay f 0 (a_hunks s) vs = Some (a_out s ++ skipn (a_ln s) f) /\ a_rejected s = count_rejected vs /\
                 length (a_hunks s) = S (length hs0)).
-  { intros s0 h0 loc0 hs0 k Hs0 Ho0 Hl0 Hr0 Hh0 E _.
+  { clear loc Hh Hlen p1. intros p1 s0 h0 loc0 hs0 k Hs0 Ho0 Hl0 Hr0 Hh0 E _.
     destruct (apply_one o p1 f 0 s0 h0 loc0) as [s1|e1] eqn:E1; cbn [rbind] in E; [|discriminate].
     apply (apply_one_cases _ _ _ _ _ _ _ _ Hd) in E1.
     destruct E1 as [(l & El & _ & A)|[_ R]].
@@ -195,11 +198,11 @@ Proof.
       exists (VRejected :: vs). rewrite Hhs, Rh, Hh0. cbn [app replay]. rewrite Rln, Hl0 in Hr. rewrite Hr.
       rewrite Ho, Ro, Ho0. cbn [app]. split; [reflexivity|]. split; [rewrite Hc, Rrj, Hr0; unfold count_rejected; cbn; lia|].
       cbn [length]. f_equal. rewrite <- (map_length body hs'), Hb, map_length. reflexivity. }
-  assert (Skip : forall s0 h0 loc0 hs0 k, a_skip s0 = true -> a_out s0 = [] -> a_ln s0 = 0 -> a_rejected s0 = 0 -> a_hunks s0 = [] ->
+  assert (Skip : forall p1 s0 h0 loc0 hs0 k, a_skip s0 = true -> a_out s0 = [] -> a_ln s0 = 0 -> a_rejected s0 = 0 -> a_hunks s0 = [] ->
      (do s' <- apply_one o p1 f 0 s0 h0 loc0; apply_rest o p1 f k s' hs0) = Ok s ->
      exists vs, replay f 0 (a_hunks s) vs = Some (a_out s ++ skipn (a_ln s) f) /\ a_rejected s = count_rejected vs /\
                 length (a_hunks s) = S (length hs0)).
-  { intros s0 h0 loc0 hs0 k Hs0 Ho0 Hl0 Hr0 Hh0 E.
+  { clear loc Hh Hlen Gen p1. intros p1 s0 h0 loc0 hs0 k Hs0 Ho0 Hl0 Hr0 Hh0 E.
     destruct (apply_one o p1 f 0 s0 h0 loc0) as [s1|e1] eqn:E1; cbn [rbind] in E; [|discriminate].
     apply (apply_one_cases _ _ _ _ _ _ _ _ Hd) in E1.
     destruct E1 as [(l & _ & Hk & _)|[_ R]]; [congruence|].
@@ -217,17 +220,17 @@ Proof.
   { intros (vs & A & B & C). exists vs. rewrite C. rewrite <- Hlen. cbn. auto. }
   destruct (should_check_if_patch_is_reversed loc o).
   - match goal with |- rbind ?m _ = _ -> _ => destruct m as [d|e] eqn:Ed end; cbn [rbind]; [|discriminate].
-    destruct (snd d); intros E; apply Wrap.
-    + pose proof (fun a b c d e => Gen _ _ _ _ _ a b c d e E) as G.
+    destruct (snd d); intros E; apply with_patch_ok in E; destruct E as [E _]; apply Wrap.
+    + pose proof (fun a b c d e => Gen _ _ _ _ _ _ a b c d e E) as G.
       specialize (G eq_refl eq_refl eq_refl eq_refl eq_refl). rewrite map_length in G. apply G.
       destruct (locate_hunk f (reverse_hunk h) _ _ _ _); [right; eexists; reflexivity|left; reflexivity].
-    + pose proof (fun a b c d e => Skip _ _ _ _ _ a b c d e E) as G.
+    + pose proof (fun a b c d e => Skip _ _ _ _ _ _ a b c d e E) as G.
       exact (G eq_refl eq_refl eq_refl eq_refl eq_refl).
-    + pose proof (fun a b c d e => Gen _ _ _ _ _ a b c d e E) as G.
+    + pose proof (fun a b c d e => Gen _ _ _ _ _ _ a b c d e E) as G.
       apply (G eq_refl eq_refl eq_refl eq_refl eq_refl).
       destruct loc; [right; eexists; reflexivity|left; reflexivity].
-  - intros E. apply Wrap.
-    pose proof (fun a b c d e => Gen _ _ _ _ _ a b c d e E) as G.
+  - intros E. apply with_patch_ok in E; destruct E as [E _]. apply Wrap.
+    pose proof (fun a b c d e => Gen _ _ _ _ _ _ a b c d e E) as G.
     apply (G eq_refl eq_refl eq_refl eq_refl eq_refl).
     destruct loc; [right; eexists; reflexivity|left; reflexivity].
 Qed.
@@ -250,9 +253,9 @@ Theorem apply_patch_verdicts o f p r :
 Proof.
   intros Hd Hf. unfold apply_patch.
   set (p1 := if reverse_patch_opt o then reverse_patch p else p). cbv zeta.
-  rewrite apply_first_force by exact Hf. fold init_state.
+  rewrite apply_first_force by exact Hf. fold init_state. unfold with_patch.
   destruct (apply_rest o p1 f 0 init_state (hunks p1)) as [s|e] eqn:E; cbn [rbind]; [|discriminate].
-  intros [= <-]. cbn [r_out r_failed r_skipped].
+  intros [= <-]. cbn [r_out r_failed r_skipped fst snd].
   destruct (apply_rest_replay o p1 f Hd (hunks p1) 0 init_state s eq_refl E) as (vs & hs' & r0 & Hr & Ho & Hhs & Hb & Hc & Hk & Hv).
   exists vs. cbn in Ho, Hc, Hr, Hv. rewrite Ho. rewrite <- (replay_body_ext f hs' (hunks p1) vs 0 Hb).
   repeat split; auto.
